@@ -21,7 +21,7 @@ M = __name__
 # exactly the classes the property statement catalogues (a stray graph end or a changed options row are not in it)
 CLASSES = ["entry_id_big", "ref_big", "ref_unfilled", "datatype_zero", "datatype_disabled", "repeat_no_prev",
            "repeat_in_quoted", "no_options", "wrong_row_kind", "triple_outside_graph",
-           "prefix_ref_disabled", "name_zero_overflow"]
+           "prefix_ref_disabled", "name_zero_overflow", "ref_unfilled_sparse"]
 BIG = [None, 2**32 - 1]
 
 
@@ -86,6 +86,14 @@ def inject(rows, cls, pos, big, phys):
             return None
         t = row[1][s]
         row[1][s] = ("iri", t[1], 7) if pos % 2 == 0 else ("iri", sizes["max_prefix_table_size"], t[2])
+    elif cls == "ref_unfilled_sparse":
+        # an explicit entry id that skips slots, then a reference to a skipped slot BELOW the highest assigned id
+        s = first_iri_slot(row)
+        if s is None:
+            return None
+        rows.insert(at, ("name", 7, "hi"))
+        t = row[1][s]
+        row[1][s] = ("iri", t[1], 6)
     elif cls == "datatype_zero":
         row[1][2] = ("lit", "v", None, 0)
     elif cls == "datatype_disabled":
@@ -227,6 +235,9 @@ def inject_h(cls: int, pos: int, big: int, cut: int) -> bool:
                 data = wire.delimit([wire.enc_frame([r]) for r in mut])
             else:
                 data = wire.delimit([wire.enc_frame(mut)])
+        with notrace():
+            # history: the same process has just parsed the VALID base stream (state must not leak between parsers)
+            run_parser(wire.delimit([wire.enc_frame(rows)]), integ, entry)
         got, raised = run_parser(data, integ, entry)
         if entry == "flat":
             ok = raised is not None and got == before[:len(got)]
